@@ -65,6 +65,10 @@ fn frame(rng: &mut Rng) -> TFrame {
     let class = class(rng).replace(['(', ')'], "_");
     TFrame { class, method: method(rng), file: Some(file(rng)), line: line(rng), params: None }
 }
+thread_local! {
+    static WRAPPERS: std::cell::Cell<u64> = const { std::cell::Cell::new(0) };
+}
+
 fn trace(rng: &mut Rng, depth: usize, top: bool) -> TTrace {
     let nf = match rng.below(4) {
         0 => 0,
@@ -90,6 +94,13 @@ fn trace(rng: &mut Rng, depth: usize, top: bool) -> TTrace {
             let k = 1 + rng.below(frames.len().min(4));
             c.frames.extend(frames[frames.len() - k..].iter().cloned());
         }
+        // `new RuntimeException(cause)`: the wrapper's message is the cause's toString()
+        if rng.chance(1, 5) {
+            if let (Some(e), Some(ce)) = (exception.as_mut(), c.exception.as_ref()) {
+                e.message = Some(ce.print());
+                WRAPPERS.with(|w| w.set(w.get() + 1));
+            }
+        }
         Some(Box::new(c))
     } else {
         None
@@ -111,6 +122,7 @@ pub fn run(ctx: &Ctx, rep: &mut Reporter) {
             let parsed = cur::typed_parse(printed.as_bytes());
             rep.count("evaluations", 1);
             rep.count("traces", 1);
+            rep.count("wrapper_messages_equal_to_the_cause_line", WRAPPERS.with(|w| w.replace(0)));
             {
                 let mut sec = Some(&t);
                 while let Some(x) = sec {
